@@ -125,6 +125,11 @@ def run(out, tier, seed):
         for gi, (name, g) in enumerate(NAMED.items()):
             if (i + gi) % (4 if quick else 1) == 0:
                 jobs.append(make_job(p, g, i + gi, "plain", vias=["aggregate"], ends=[([], []), (["n1"], []), ([], ["n3"]), (["n1"], ["n3"])]))
+    # a path asked of one named graph of a dataset (4-tuple with the graph or its name, or context=), the other graphs holding other edges
+    for i, p in enumerate(paths2[:: (9 if quick else 2)]):
+        for gi, (name, g) in enumerate(NAMED.items()):
+            if (i + gi) % (5 if quick else 2) == 0:
+                jobs.append(make_job(p, g, i + gi, "plain", vias=[["dataset_quad", "dataset_ctx", "cg_quad"][(i + gi) % 3]], ends=[([], []), (["n1"], []), ([], ["n3"]), (["n1"], ["n3"])]))
     # every directly nested pair of modifiers (p?)+, (p*)?, ^(p+)* ... through every route, on every named family
     mods = ["star", "plus", "opt"]
     for m1 in mods:
